@@ -349,7 +349,7 @@ def pdb_atom_line(r, serial):
     return line
 
 
-def to_pdb(records, model_records=None, header=True, ter=True):
+def to_pdb(records, model_records=None, header=True, ter=True, serial0=1):
     """PDB text.  `model_records`: None = write MODEL/ENDMDL iff there are several models or the
     only model is not 1."""
     models = []
@@ -362,7 +362,7 @@ def to_pdb(records, model_records=None, header=True, ter=True):
     if header:
         out.append("HEADER    RNA                                     01-JAN-00   XXXX")
         out.append("REMARK   2 GENERATED TABLE")
-    serial = 1
+    serial = serial0
     cur = None
     prev = None
     for r in records:
